@@ -549,7 +549,16 @@ pub fn execute(
     // recover the concrete Sim
     let raw: Box<dyn SimHooks> = hooks.expect("hooks vanished");
     let sim: Box<Sim> = unsafe { Box::from_raw(Box::into_raw(raw) as *mut Sim) };
-    let sim = *sim;
+    let mut sim = *sim;
+    // the subject may have answered on its way out: let the environment read it
+    interpose::in_env(|| {
+        for _ in 0..3 {
+            let mut ctx = EnvCtx { chooser: &mut sim.chooser, now_ns: sim.clock_ns, log: &mut sim.log };
+            if !sim.env.turn(&mut ctx) {
+                break;
+            }
+        }
+    });
     let end = if sim.end == End::Running { End::Finished } else { sim.end.clone() };
     Execution {
         end,
